@@ -1,6 +1,7 @@
 package c14
 
 import (
+	"fmt"
 	"sync/atomic"
 	"time"
 
@@ -106,6 +107,29 @@ func exclChecked(f, w string) ExclRec {
 	return r
 }
 
+// aliasOne: what an operation hands out is a result - a snapshot taken at the instant the operation took effect - not a window
+// into the map: a store made after LoadAndDeleteAll / CopyData returned does not show up in what they returned (recorded as a
+// pair f = the operation, w = "store-after": during = the later store is visible in the earlier result).
+func aliasOne(f string, prefill int) ExclRec {
+	r := ExclRec{Op: "excl", F: f, W: "store-after", Entered: true, WDone: true}
+	m := coapsync.NewMap[int, int]()
+	for k := 1; k <= prefill; k++ {
+		m.Store(k, 100+k)
+	}
+	var res map[int]int
+	if f[:6] == "ladall" {
+		res = m.LoadAndDeleteAll()
+	} else {
+		res = m.CopyData()
+	}
+	before := len(res)
+	m.Store(77, 7)
+	m.Store(78, 8)
+	_, leaked := res[77]
+	r.During = leaked || len(res) != before
+	return r
+}
+
 // RunExcl writes one record per (callback operation, concurrent operation) pair.
 func RunExcl(out string) {
 	wr := rec.Create(out)
@@ -115,6 +139,10 @@ func RunExcl(out string) {
 		for _, w := range writers {
 			wr.Put(exclChecked(f, w))
 		}
+	}
+	for _, pre := range []int{0, 1, 3} {
+		wr.Put(aliasOne(fmt.Sprintf("ladall-%d", pre), pre))
+		wr.Put(aliasOne(fmt.Sprintf("copydata-%d", pre), pre))
 	}
 	for _, f := range []string{"losf", "losf-create", "storef", "replacef", "deletef", "ladf"} { // under the write lock: everybody waits
 		for _, w := range append([]string{"load"}, writers...) {
